@@ -10,7 +10,11 @@
 (* implementation.  Real transactions and blocks (a block message is only     *)
 (* accepted with a correct merkle root, which TLC cannot compute) are read    *)
 (* from the file named by the environment variable P2P_POOL:                  *)
-(*    {"tx": [bytes...], "block": [bytes...]}  (bytes as runs [[fill,len]..]) *)
+(*    {"tx": [bytes...], "block": [bytes...], "merkle": [proof...]}           *)
+(* (bytes as runs [[fill,len]..]).  A proof is a partial merkle tree of an    *)
+(* honest BIP37 prover, [n, hashes, flags, root]: MC_P2PMerkle enumerates     *)
+(* them (one per block size and traversal size) as hash terms, the harness    *)
+(* evaluates the terms with hashlib.                                          *)
 EXTENDS P2PMsg, Json, IOUtils
 
 CONSTANT Tier           \* "q" (quick), "t" (thorough) or "p" (the pool only)
@@ -18,6 +22,7 @@ CONSTANT Tier           \* "q" (quick), "t" (thorough) or "p" (the pool only)
 Pool == JsonDeserialize(IOEnv.P2P_POOL)
 PoolTx    == {[raw |-> Pool.tx[i]] : i \in 1..Len(Pool.tx)}
 PoolBlock == {[raw |-> Pool.block[i]] : i \in 1..Len(Pool.block)}
+PoolMerkle == {Pool.merkle[i] : i \in 1..Len(Pool.merkle)}
 
 \* ---------------------------------------------------------------- boundary values per type
 N32 == {<<0, 0>>, <<1, 0>>, <<65535, 32767>>, <<0, 32768>>, <<65535, 65535>>, <<513, 1027>>}    \* ..., 0x04030201
@@ -147,9 +152,12 @@ Pairwise(m) == UNION {{[BaseF(m) EXCEPT ![p[1]] = v, ![p[2]] = w] :
                        p \in {q \in (1..NFields(m)) \X (1..NFields(m)) : q[1] < q[2]}}
 Generic(m) == {BaseF(m), LoF(m), HiF(m)} \cup OneFactor(m) \cup (IF Tier = "t" THEN Pairwise(m) ELSE {})
 
-\* merkleblock: the library verifies the partial merkle tree while parsing, so only a well-formed one:
-\* a one-transaction block, the single hash being the merkle root (matched or not: flag bit 1 or 0)
+\* merkleblock: the library verifies the partial merkle tree while parsing, so only well-formed ones:
+\* a one-transaction block, the single hash being the merkle root (matched or not: flag bit 1 or 0), under every
+\* boundary header; and the proofs of the pool (block sizes 1..N, every traversal size: flag bytes that end in
+\* padding and flag bytes filled to their last bit) under the base header with the proof's root
 MerkleCases == {<<h, <<1, 0>>, <<h.merkle>>, <<fl>>>> : h \in Headers, fl \in {0, 1}}
+               \cup {<<[H0 EXCEPT !.merkle = p.root], <<p.n, 0>>, p.hashes, p.flags>> : p \in PoolMerkle}
 \* alert: the payload is itself a structure the library parses: only well-formed payloads
 AlertSigs == {<<>>, Run(48, 72)}
 
